@@ -362,7 +362,46 @@ fn mk(case: &Case, class: &str, detail: String) -> Violation {
         .rank(case.params.len() as u64 * 2 + if case.macro_arg > 0 { 1 } else { 0 })
 }
 
+/// Two runs of the real binary into the same output directory: the configured parameter case
+/// changes from `before` to the case's own, nothing else does. The keys must follow.
+pub fn eval_history(case: &Case, before: &Option<String>, build_seam: bool) -> Vec<Violation> {
+    use crate::sbx::{self, FileCfg, RunOpts, Seam};
+    let seam = if build_seam { Seam::Build } else { Seam::Cli };
+    let sb = crate::run::Sandbox::new();
+    let project = case.project();
+    sbx::write_sources(&sb.root, &project, &FileCfg { zod: case.zod, default_parameter_case: before.clone(), ..Default::default() });
+    let r1 = sbx::run_generate(&sb.root, seam, &RunOpts::default());
+    let cfg2 = FileCfg { zod: case.zod, default_parameter_case: case.case.clone(), ..Default::default() };
+    sbx::write_sources(&sb.root, &project, &cfg2);
+    let r2 = sbx::run_generate(&sb.root, seam, &RunOpts::default());
+    if !r1.success() || !r2.success() {
+        return vec![];
+    }
+    let files = crate::run::read_out_dir(&sbx::out_dir(&sb.root, &cfg2));
+    let Ok(obs) = observe(&files, "do_thing") else { return vec![] };
+    let expected = case.expected();
+    let keyset = |m: &BTreeMap<String, bool>| m.keys().cloned().collect::<BTreeSet<String>>();
+    let mut vs = vec![];
+    let mut report = |what: &str, got: &BTreeMap<String, bool>| {
+        if keyset(got) != keyset(&expected) {
+            let mut v = mk(case, "keys-after-case-change", format!("configured parameter case changed from {:?} to {:?} between two runs into the same directory ({}): {} has keys {} but Tauri deserialises {}", before, case.case, seam.name(), what, show(got), show(&expected)));
+            v.replay = json!({"history": {"case": case, "before": before, "build": build_seam}});
+            vs.push(v.field("before", before.clone().unwrap_or("-".into())).field("seam", seam.name()));
+        }
+    };
+    report("the object reaching invoke", &obs.invoked);
+    if let Some(d) = &obs.declared {
+        report("the parameter type", d);
+    }
+    vs
+}
+
 pub fn replay(case: &Value) -> Vec<Violation> {
+    if let Some(h) = case.get("history") {
+        let Ok(c) = serde_json::from_value::<Case>(h["case"].clone()) else { return vec![] };
+        let before: Option<String> = h["before"].as_str().map(|s| s.to_string());
+        return eval_history(&c, &before, h["build"].as_bool().unwrap_or(false));
+    }
     serde_json::from_value::<Case>(case.clone()).map(|c| eval(&c).0).unwrap_or_default()
 }
 
@@ -446,12 +485,31 @@ pub fn run(tier: Tier) -> CheckResult {
             cases.push(Case { params, case: c, zod: true, macro_arg });
         }
     }
+    // (3) the configured case changes between two runs into the same output directory (real binary
+    // and build path): every ordered pair of settings
+    let mut hist: Vec<(Case, Option<String>, bool)> = vec![];
+    for before in &cases_opt {
+        for after in &cases_opt {
+            if before == after {
+                continue;
+            }
+            for zod in [false, true] {
+                for build in [false, true] {
+                    hist.push((Case { params: vec![(PKind::Value, 1, 0), (PKind::Optional, 2, 0), (PKind::Channel, 8, 0), (PKind::Injected(0), 0, 0)], case: after.clone(), zod, macro_arg: 0 }, before.clone(), build));
+                }
+            }
+        }
+    }
+    let hres: Vec<Vec<Violation>> = hist.par_iter().map(|(c, b, build)| if deadline.passed() { vec![] } else { eval_history(c, b, *build) }).collect();
+    let hist_violations: Vec<Violation> = hres.into_iter().flatten().collect();
     let results: Vec<Option<(Vec<Violation>, bool, Option<String>)>> = cases.par_iter().map(|c| if deadline.passed() { None } else { Some(eval(c)) }).collect();
     let mut evaluations = 0u64;
     let mut exhaustive = true;
     let mut not_parsable = 0u64;
     let mut nontrivial = BTreeSet::new();
     let mut all_v = vec![];
+    res.coverage.set("case_change_histories", hist.len() as u64);
+    res.violations.extend(hist_violations.into_iter().take(8));
     for (c, r) in cases.iter().zip(results) {
         match r {
             None => exhaustive = false,
@@ -492,7 +550,7 @@ pub fn run(tier: Tier) -> CheckResult {
     res.coverage.set("cases", cases.len() as u64);
     res.coverage.set("exhaustive", exhaustive);
     res.coverage.set("samples", json!(cases.iter().step_by((cases.len() / 5).max(1)).take(5).collect::<Vec<_>>()));
-    res.coverage.set("rule", "one command per project; parameter lists: every single parameter kind (value, Option, Channel<T> in 3 spellings, 13 spellings of injected parameters) x 11 names x {default, 6 naming-case settings} x both modes, plus all ordered lists of length 2..4 (quick) / 2..5 (thorough) over the kinds menu (lists of four and more over the eight-kind menu); oracle: key sets of the declared parameter type, of the parameter schema and of the object expression reaching invoke (spreads and safeParse results resolved through the parsed AST) equal {case(name) | frontend-filled parameter}, case = heck lowerCamelCase by default (what tauri-macros applies) / serde's field rule for a configured case / the macro's own rename_all argument (#[tauri::command(rename_all = \"snake_case\")], with async / root arguments beside it) before either; omittable iff Option. Non-trivial = accepted and output parsed.");
+    res.coverage.set("rule", "one command per project; parameter lists: every single parameter kind (value, Option, Channel<T> in 3 spellings, 13 spellings of injected parameters) x 11 names x {default, 6 naming-case settings} x both modes, plus all ordered lists of length 2..4 (quick) / 2..5 (thorough) over the kinds menu (lists of four and more over the eight-kind menu); oracle: key sets of the declared parameter type, of the parameter schema and of the object expression reaching invoke (spreads and safeParse results resolved through the parsed AST) equal {case(name) | frontend-filled parameter}, case = heck lowerCamelCase by default (what tauri-macros applies) / serde's field rule for a configured case / the macro's own rename_all argument (#[tauri::command(rename_all = \"snake_case\")], with async / root arguments beside it) before either; omittable iff Option; plus every ordered pair of parameter-case settings as two consecutive runs of the real binary / build path into one output directory (the keys follow the second setting). Non-trivial = accepted and output parsed.");
     res.assumptions = vec!["parameter names are snake_case identifiers (on those heck and serde's camelCase agree)".into()];
     res
 }
